@@ -88,7 +88,14 @@ pub fn eval(expr: Node) -> Result<i64, Box<dyn error::Error>> {
         Subtract(expr1, expr2) => checked(eval(*expr1)?.checked_sub(eval(*expr2)?)),
         Multiply(expr1, expr2) => checked(eval(*expr1)?.checked_mul(eval(*expr2)?)),
         Divide(expr1, expr2) => checked(eval(*expr1)?.checked_div(eval(*expr2)?)),
-        Modulo(expr1, expr2) => checked(eval(*expr1)?.checked_rem(eval(*expr2)?)),
+        Modulo(expr1, expr2) => {
+            let dividend = eval(*expr1)?;
+            let divisor = eval(*expr2)?;
+            if divisor == 0 {
+                return Err("Division by zero".into());
+            }
+            Ok(dividend.wrapping_rem(divisor))
+        }
         Negative(expr1) => checked(eval(*expr1)?.checked_neg()),
         Pow(expr1, expr2) => {
             let base = eval(*expr1)?;
